@@ -127,13 +127,23 @@ Fixpoint map_opt (l : list A) : option (list B) :=
   end.
 End MapOpt.
 
-(** array (+|-|*|/|//|%) scalar and scalar op array broadcast (1-D);
-    everything else on sequences is outside the fragment *)
+(** array (+|-|*|/|//|%) scalar and scalar op array broadcast (any number of
+    dimensions); everything else on sequences is outside the fragment *)
+Fixpoint bc_l (op : binop) (b : val) (a : val) : option val :=
+  match a with
+  | VA l => option_map VA (map_opt (bc_l op b) l)
+  | _ => arith op a b
+  end.
+Fixpoint bc_r (op : binop) (a : val) (b : val) : option val :=
+  match b with
+  | VA r => option_map VA (map_opt (bc_r op a) r)
+  | _ => arith op a b
+  end.
 Definition binop_val (op : binop) (a b : val) : option val :=
   match a, b with
   | VA l, VA r => None
-  | VA l, _ => option_map VA (map_opt (fun x => arith op x b) l)
-  | _, VA r => option_map VA (map_opt (fun y => arith op a y) r)
+  | VA l, _ => bc_l op b a
+  | _, VA r => bc_r op a b
   | _, _ => arith op a b
   end.
 
@@ -280,6 +290,16 @@ Definition bc_list (n : nat) (v : val) : option (list val) :=
   | _ => None
   end.
 
+(** np.ones_like(a): the same shape and type, filled with ones *)
+Fixpoint ones_like (v : val) : option val :=
+  match v with
+  | VZ _ => Some (VZ 1)
+  | VQ _ => Some (VQ 1)
+  | VB _ => Some (VB true)
+  | VA l => option_map VA (map_opt ones_like l)
+  | _ => None
+  end.
+
 Fixpoint enumerate_from (i : Z) (l : list val) : list val :=
   match l with [] => [] | x :: t => VL [VZ i; x] :: enumerate_from (i + 1) t end.
 
@@ -362,6 +382,16 @@ Definition call (f : string) (args : list val) : option (option val) :=   (* Non
         end
     | _ => None
     end
+  else if is "np.meshgrid" then       (* two 1-D arrays, default indexing="xy": rows follow the second one *)
+    match args with
+    | [VA x; VA y] =>
+        if all_scalar x && all_scalar y
+        then Some (Some (VL [VA (map (fun _ => VA x) y); VA (map (fun b => VA (map (fun _ => b) x)) y)]))
+        else None
+    | _ => None
+    end
+  else if is "np.ones_like" then
+    match args with [VA l] => match ones_like (VA l) with Some a => Some (Some a) | None => None end | _ => None end
   else if is "np.arange" then
     match args with
     | [VZ a; VZ b] => Some (Some (VA (map (fun i => VZ (a + Z.of_nat i)) (seq 0 (Z.to_nat (b - a))))))
@@ -671,6 +701,36 @@ Proof.
   cbn [exec_list]. destruct (exec a env); reflexivity.
 Qed.
 
+(** the loop of [SFor], as a function of its own *)
+Fixpoint for_loop (targets : list string) (body : list stmt) (vs : list val) (env : list (string * val)) : outcome :=
+  match vs with
+  | [] => Normal env
+  | v :: t => match bind_pattern targets v env with
+              | inl env' => match exec_list body env' with Normal env'' => for_loop targets body t env'' | o => o end
+              | inr true => Raised
+              | inr false => Stuck end
+  end.
+
+Lemma exec_SFor targets it body env :
+  exec (SFor targets it body) env =
+  match eval env it with
+  | Some (Some v) => match seq_of v with Some vs => for_loop targets body vs env | None => Stuck end
+  | Some None => Raised
+  | None => Stuck
+  end.
+Proof.
+  cbn [exec]. destruct (eval env it) as [[v|]|]; try reflexivity.
+  destruct (seq_of v) as [vs|]; try reflexivity.
+  generalize env. induction vs as [|x t IH]; intros env0; [reflexivity|].
+  cbn [for_loop]. destruct (bind_pattern targets x env0) as [env'|[|]]; try reflexivity.
+  change ((fix run_list (l : list stmt) (env : list (string * val)) {struct l} : outcome :=
+             match l with
+             | [] => Normal env
+             | s :: t => match exec s env with Normal env' => run_list t env' | o => o end
+             end) body env') with (exec_list body env').
+  destruct (exec_list body env'); try reflexivity. apply IH.
+Qed.
+
 Lemma exec_SIf c th el env :
   exec (SIf c th el) env =
   match eval env c with
@@ -695,6 +755,25 @@ Definition run (f : func) (args : list val) : outcome :=
       | o => o
       end
   end.
+
+(** calling with keyword arguments: the positional arguments bind the first
+    parameters, the keyword arguments (the last [length kws] values) bind the
+    parameters of those names; every parameter must be bound exactly once
+    (defaults are not modelled) *)
+Definition run_kw (f : func) (kws : list string) (args : list val) : outcome :=
+  let npos := (List.length args - List.length kws)%nat in
+  let names := (firstn npos (f_params f) ++ kws)%list in
+  if Nat.eqb (List.length names) (List.length (f_params f)) &&
+     forallb (fun p => existsb (String.eqb p) names) (f_params f)
+  then match bind_targets names args [] with
+       | None => Stuck
+       | Some env =>
+           match exec_list (f_body f) env with
+           | Normal _ => Returned VNone
+           | o => o
+           end
+       end
+  else Stuck.
 
 End Eval.
 
